@@ -28,6 +28,62 @@ Definition enums_ok : bool :=
   (andb (enums_covered CBind.c_enums CBind.enum_from CBind.enum_to)
         (forallb vec_conv_ok CBind.vec_convs)))).
 
+Definition options_ok : bool :=
+  andb (forallb (opt_table_ok CBind.c_structs) CBind.opt_tables)
+  (andb (opt_tables_cover CBind.option_structs CBind.table CBind.opt_tables)
+        (Nat.leb 1 (length CBind.opt_tables))).
+
+Lemma options_ok_table : options_ok = true.
+Proof. vm_compute. reflexivity. Qed.
+
+(* the seeded slip: the block copying run_original_ids guarded by run_indices *)
+Lemma wrong_guard_rejected :
+  opt_table_ok CBind.c_structs
+    ("manifold_meshgl64_w_options", "ManifoldMeshGL64Options",
+     [("halfedge_tangents", "halfedge_tangents", "n_tris*3*4", "halfedgeTangent");
+      ("run_indices", "run_indices", "run_indices_length", "runIndex");
+      ("run_indices", "run_original_ids", "run_original_ids_length", "runOriginalID");
+      ("merge_from_vert", "merge_from_vert", "merge_verts_length", "mergeFromVert");
+      ("merge_to_vert", "merge_to_vert", "merge_verts_length", "mergeToVert")]) = false.
+Proof. vm_compute. reflexivity. Qed.
+
+(* a block routed to the wrong MeshGL member, and a field that is never copied *)
+Lemma wrong_member_rejected :
+  opt_table_ok CBind.c_structs
+    ("manifold_meshgl_w_options", "ManifoldMeshGLOptions",
+     [("halfedge_tangents", "halfedge_tangents", "n_tris*3*4", "halfedgeTangent");
+      ("run_indices", "run_indices", "run_indices_length", "runIndex");
+      ("run_original_ids", "run_original_ids", "run_original_ids_length", "runOriginalID");
+      ("merge_from_vert", "merge_from_vert", "merge_verts_length", "mergeToVert");
+      ("merge_to_vert", "merge_to_vert", "merge_verts_length", "mergeFromVert")]) = false
+  /\ opt_table_ok CBind.c_structs
+    ("manifold_meshgl_w_options", "ManifoldMeshGLOptions",
+     [("run_indices", "run_indices", "run_indices_length", "runIndex");
+      ("run_original_ids", "run_original_ids", "run_original_ids_length", "runOriginalID");
+      ("merge_from_vert", "merge_from_vert", "merge_verts_length", "mergeFromVert");
+      ("merge_to_vert", "merge_to_vert", "merge_verts_length", "mergeToVert")]) = false.
+Proof. split; vm_compute; reflexivity. Qed.
+
+Lemma opt_block_ok_sound : forall g s l d, opt_block_ok (g, s, l, d) = true ->
+  g = s /\ assoc s option_field_map = Some (d, l).
+Proof.
+  intros g s l d H. unfold opt_block_ok in H. apply andb_true_iff in H. destruct H as [H1 H2].
+  apply String.eqb_eq in H1. split; [exact H1|].
+  destruct (assoc s option_field_map) as [[m l']|]; [|discriminate].
+  apply andb_true_iff in H2. destruct H2 as [Hm Hl]. apply String.eqb_eq in Hm. apply String.eqb_eq in Hl. subst. reflexivity.
+Qed.
+
+Lemma options_blocks_sound :
+  forall fn st blocks g s l d, In (fn, st, blocks) CBind.opt_tables -> In (g, s, l, d) blocks ->
+  g = s /\ assoc s option_field_map = Some (d, l).
+Proof.
+  intros fn st blocks g s l d Ht Hb. pose proof options_ok_table as O. unfold options_ok in O.
+  apply andb_true_iff in O. destruct O as [O _]. rewrite forallb_forall in O. specialize (O _ Ht).
+  unfold opt_table_ok in O. destruct (assoc st CBind.c_structs); [|discriminate].
+  apply andb_true_iff in O. destruct O as [O _]. rewrite forallb_forall in O.
+  apply opt_block_ok_sound. apply O. exact Hb.
+Qed.
+
 Lemma wrappers_faithful_table : forallb wrapper_ok CBind.table = true.
 Proof. vm_compute. reflexivity. Qed.
 
